@@ -22,6 +22,7 @@ pub struct RunRec {
     pub fired_err: u32,
     pub err_fired: Option<(u32, u8, u64)>,
     pub hit_trunc_eof: bool,
+    pub revived: bool,
     pub ticks: u64,
 }
 
@@ -82,7 +83,7 @@ pub fn run_reads(doc: &[u8], shared: &Rc<Vec<u8>>, st: &Stream, kind: ReaderKind
     let mut steps: Vec<Step> = Vec::new();
     let mut monitor: Vec<(String, String)> = Vec::new();
     let mut ticks = 0u64;
-    let eff_len = st.eof_at.map(|e| (e as usize).min(doc.len())).unwrap_or(doc.len());
+    let eff_len = if st.revive { doc.len() } else { st.eof_at.map(|e| (e as usize).min(doc.len())).unwrap_or(doc.len()) };
     let res = guard(|| {
         let mut rd = Rd::new(doc, shared, st, kind, cfg, &log, tag);
         let budget = read_budget(eff_len) + EXTRA_CALLS + 1;
@@ -164,6 +165,7 @@ pub fn run_reads(doc: &[u8], shared: &Rc<Vec<u8>>, st: &Stream, kind: ReaderKind
         fired_err: l.fired_err,
         err_fired: l.err_fired,
         hit_trunc_eof: l.hit_trunc_eof,
+        revived: l.revived,
         ticks,
     };
     if let Err(p) = res {
@@ -213,6 +215,15 @@ pub fn count_faults(rec: &RunRec, st: &mut Stats) {
     st.add("fault.io_error", rec.fired_err as u64);
     if rec.hit_trunc_eof {
         st.bump("fault.early_eof");
+    }
+    if rec.revived {
+        st.bump("fault.eof_not_sticky");
+        let eof_at = rec.trace.iter().position(|t| t.act == A_EOF);
+        if let Some(i) = eof_at {
+            if rec.trace[i..].iter().any(|t| t.act == A_DATA) {
+                st.bump("fault.eof_not_sticky_and_the_library_read_again");
+            }
+        }
     }
     st.ticks += rec.ticks;
     let short = rec.trace.iter().filter(|t| t.act == A_DATA).count() as u64;
